@@ -6,6 +6,7 @@ import Driver.UHistCmd
 import Driver.EventsCmd
 import Driver.GennyCmd
 import Driver.CsvCmd
+import Driver.MetricsCmd
 open Driver
 
 def dispatch (line : String) : String :=
@@ -18,6 +19,8 @@ def dispatch (line : String) : String :=
     | "perf-rt" => perfRtCmd rest
     | "genny" => gennyCmd rest
     | "csv" => csvCmd rest
+    | "json" => jsonCmd rest
+    | "runtime-trace" => runtimeTraceCmd rest
     | "hist" => histCmd rest
     | "uhist" => uhistCmd rest
     | "read" => readCmd rest
